@@ -152,14 +152,14 @@ mod verif_order {
         /// inversion of the current sequence, then applies and records the swap
         fn swap(&self, i: u32) {
             let i = i as usize;
-            assert!(i + 1 < N, "swap index out of range");
+            assert!(i + 1 < N); // swap index out of range
             let a = self.shadow[i].load(Relaxed);
             let b = self.shadow[i + 1].load(Relaxed);
-            assert!(a > b, "swap of a pair that is not an inversion");
+            assert!(a > b); // swap of a pair that is not an inversion
             self.shadow[i].store(b, Relaxed);
             self.shadow[i + 1].store(a, Relaxed);
             let c = self.count.load(Relaxed);
-            assert!(c < S, "more swaps than the maximal inversion count");
+            assert!(c < S); // more swaps than the maximal inversion count
             self.log[c].store(i as u32, Relaxed);
             self.count.store(c + 1, Relaxed);
         }
@@ -168,18 +168,18 @@ mod verif_order {
             // final sequence is sorted (= the target order) ...
             let mut i = 0;
             while i + 1 < N {
-                assert!(seq[i] <= seq[i + 1], "final sequence not sorted");
+                assert!(seq[i] <= seq[i + 1]); // final sequence not sorted
                 i += 1;
             }
             // ... and is what the reported swaps produce from the start order
             let mut i = 0;
             while i < N {
-                assert!(self.shadow[i].load(Relaxed) == seq[i], "swaps do not produce the final sequence");
+                assert!(self.shadow[i].load(Relaxed) == seq[i]); // swaps do not produce the final sequence
                 i += 1;
             }
             // number of swaps = inversion count of the start order (minimal)
             let c = self.count.load(Relaxed);
-            assert!(c as u32 == inversions(start), "number of swaps is not the inversion count");
+            assert!(c as u32 == inversions(start)); // number of swaps is not the inversion count
             // replay of the log on the start order yields the final sequence
             let mut replay = *start;
             let mut k = 0;
@@ -194,7 +194,7 @@ mod verif_order {
             }
             let mut i = 0;
             while i < N {
-                assert!(replay[i] == seq[i], "replayed log does not produce the final sequence");
+                assert!(replay[i] == seq[i]); // replayed log does not produce the final sequence
                 i += 1;
             }
         }
@@ -320,7 +320,7 @@ mod verif_order {
     fn selftest_sort_order_identity_must_fail() {
         let req = any_request::<3, 2>();
         let res = sort_order(3, req[..2].iter().copied());
-        assert!(res[0] == 0 && res[1] == 1 && res[2] == 2, "SELFTEST: must be refuted");
+        assert!(res[0] == 0 && res[1] == 1 && res[2] == 2); // SELFTEST: must be refuted
     }
 
     /// wrong postcondition: bubble_sort never needs more than one swap
@@ -332,6 +332,6 @@ mod verif_order {
         let mut seq = start;
         let swap: SwapFn<'_, ()> = &|_m, i| rec.swap(i);
         bubble_sort(&(), &mut seq, swap);
-        assert!(rec.count.load(Relaxed) <= 1, "SELFTEST: must be refuted");
+        assert!(rec.count.load(Relaxed) <= 1); // SELFTEST: must be refuted
     }
 }
